@@ -302,7 +302,15 @@ func invoke(e *asm.Emitter, c hcall) (pan interface{}) {
 	case "label":
 		e.Label(c.S)
 	case "data":
-		e.EmitBytes(c.Data)
+		// the caller owns its buffer: hand over a private copy and reuse (scribble over) it
+		// right after the call, as a caller filling one scratch buffer repeatedly would
+		tmp := append([]byte(nil), c.Data...)
+		defer func() {
+			for i := range tmp {
+				tmp[i] ^= 0xA5
+			}
+		}()
+		e.EmitBytes(tmp)
 	case "comment":
 		e.Comment(c.S)
 	case "setbase":
